@@ -25,7 +25,7 @@ variable {α : Type} [Add α] [Sub α] [Mul α] [Div α] [Neg α] [NatCast α] [
   [DecidableLT α] [DecidableLE α] [Transc α]
 
 /-- no new in-line amplifier where no fibre follows a fibre -/
-theorem addInline_fixpoint (l : List (Elem α)) (h : NoAdjFib l) : addInline l = l := by
+theorem addInline_fixpoint (m : Bool) (l : List (Elem α)) (h : NoAdjFib l) : addInline m l = l := by
   induction l with
   | nil => simp [addInline]
   | cons x rest ih =>
@@ -64,25 +64,28 @@ theorem addMissing_fixpoint (c : SplitCfg α) (ch : Chain α)
     addMissingLine c ch = ch.line := by
   unfold addMissingLine
   rw [split_fixpoint c ch.line hlen]
-  have hp : addPreamp ch.dst ch.dstKind ch.line = ch.line := by
+  dsimp only
+  have hp : ∀ m, addPreamp ch.dst ch.dstKind m ch.line = ch.line := by
+    intro m
     cases hk : ch.dstKind with
     | trx => simp [addPreamp]
     | roadm =>
       cases hl : ch.line.getLast? with
       | none => simp [addPreamp, hl]
-      | some e => exact (junction_exceptions ch.src ch.dst ch.line).2.2.2 e hl (hlast hk e hl)
+      | some e => exact (junction_exceptions ch.src ch.dst m ch.line).2.2.2 e hl (hlast hk e hl)
   rw [hp]
-  have hb : addBooster ch.src ch.srcKind ch.line = ch.line := by
+  have hb : ∀ m, addBooster ch.src ch.srcKind m ch.line = ch.line := by
+    intro m
     cases hk : ch.srcKind with
     | trx => simp [addBooster]
     | roadm =>
       cases hl : ch.line with
       | nil => simp [addBooster]
       | cons e t =>
-        have := (junction_exceptions ch.src ch.dst ch.line).2.2.1 e t hl (hhead hk e t hl)
+        have := (junction_exceptions ch.src ch.dst m ch.line).2.2.1 e t hl (hhead hk e t hl)
         rw [hl] at this; exact this
   rw [hb]
-  exact addInline_fixpoint _ hadj
+  exact addInline_fixpoint _ _ hadj
 
 end
 
@@ -325,7 +328,7 @@ example : ∃ (c : Cfg ℝ) (inputs : List (AmpIn ℝ)), inputs.length = 2 ∧ F
   refine ⟨c, [a1, a1], rfl, ?_⟩
   have hdec : ("" == "") = true := by decide
   simp only [FitsAll, ampStep, computeTargets, powerReduction, targetPower, truthy_eq, pmin_eq, pmax_eq, c, a1,
-    newEdfa, hdec]
+    newEdfa, newAmp, hdec]
   norm_num
 
 /-- the hypotheses of the SimParams theorems are satisfiable (an idempotent lower-casing that fixes the default method
